@@ -31,6 +31,8 @@ def run_property(prop, root, tier='quick'):
     ctx = report.Ctx(prop, repo, tier=tier, root=root)
     mod = importlib.import_module('pblint.props.%s' % prop.lower())
     mod.run(ctx)
+    from pblint import hazards
+    hazards.rule_effects(ctx, '%s.Z1' % prop, hazards.files_of(prop))
     return ctx
 
 
